@@ -65,7 +65,9 @@ def main(tier, seed):
             r.violation("CMAESConfig.create:weights", f"recombination weights {w} for population {lam}", {"lambda": lam})
 
     # ---- (b) incumbent bookkeeping (E2 on the real set_evaluation_feedback)
-    def feedback_prog(maximize):
+    def feedback_prog(maximize, nonfinite=False):
+        from e2_pysym.core import sym_int
+
         def prog(ctx):
             lam, n = 4, 2
             cfg = cmaes.CMAESConfig.create(False, None, maximize, 0.0, 0.0, 1e7, n, lam)
@@ -81,7 +83,7 @@ def main(tier, seed):
                     return x if isinstance(x, (E.SymReal, E.SymInt)) else jnp.sum(x, *a, **k)
             names = dict(jnp=JnpShim(), float=lambda x: x if isinstance(x, (E.SymReal, E.SymInt)) else float(x)) if sym else {}
             hist = []
-            K = 5
+            K = 4 if nonfinite else 5
             pops = []
             with overlay(cmaes, **names):
                 pop = None
@@ -90,10 +92,22 @@ def main(tier, seed):
                         pop = cmaes.Population.create(jnp.asarray(rng.normal(size=(lam, n))) + 10 * (i // lam))
                     k = st.it % lam
                     ret = sym_real(f"return{i}")
+                    if nonfinite and i < 3:
+                        # "all fitness sequences (including ties and non-finite values)": this evaluation may also
+                        # return +inf, -inf or NaN.  A NaN return is not comparable: it never becomes the incumbent and
+                        # is not counted among the candidates the incumbent has to beat.
+                        kind = int(sym_int(f"kind{i}", 0, 3))
+                        ret = (ret, float("inf"), float("-inf"), float("nan"))[kind]
                     cmaes.set_evaluation_feedback(cfg, st, pop, ret)
-                    hist.append((ret, np.asarray(pop.samples[k])))
+                    is_nan = isinstance(ret, float) and ret != ret
+                    if not is_nan:
+                        hist.append((ret, np.asarray(pop.samples[k])))
                     best = st.best_fitness
                     reported = -best if maximize else best
+                    if hist:
+                        ctx.check(not (isinstance(reported, float) and reported != reported), "reported-best-fitness-is-never-NaN-once-a-comparable-candidate-was-evaluated")
+                    else:
+                        continue
                     # best evaluated so far
                     for (r_j, x_j) in hist:
                         ctx.check((reported >= r_j) if maximize else (reported <= r_j), "reported-best-fitness-is-at-least-as-good-as-every-evaluated-candidate")
@@ -108,6 +122,7 @@ def main(tier, seed):
         return prog
     for mx in (True, False):
         rep.run(f"set_evaluation_feedback[maximize={mx}]", feedback_prog(mx), fn="rl_blox.algorithm.cmaes.set_evaluation_feedback")
+        rep.run(f"set_evaluation_feedback[maximize={mx},non-finite returns]", feedback_prog(mx, True), fn="rl_blox.algorithm.cmaes.set_evaluation_feedback")
 
     # ---- (c) update of the search distribution (E1; int/min shimmed for tracing)
     n, lam = 2, 4
